@@ -18,6 +18,11 @@ CLAIMED = {
   note="Trusted: the lexical model of std::path (Unix semantics: components/is_absolute/join/strip_prefix stubs in prelude/path_model.rs), vstd, rules R1,R2,R4,R8. Not decided: symlinks, walkdir/grep internals, Workspace::apply_patch's own fs calls (closures capturing &mut are rejected by Verus), 'a refused request has no side effect' beyond the resolvers being pure, checkpoint id / session id validation on rewind.",
   technique="Verus contracts over an assumed lexical path model on mechanically extracted resolver functions; closure contracts; native replay for counterexamples",
   ref="§4 C13"),
+ 'C16': dict(
+  text="Unbounded deductive proof (Verus/Z3) on the real 180-line run_openresponses_agent_loop extracted from /repo on every run: (1) ToolRunner::run carries the precondition permitted(tool name), so 'a tool excluded by the configured tool choice is never executed' is an obligation at both execution sites, discharged from the allows_function test; (2) tool_call_count <= DEFAULT_MAX_TOOL_CALLS is a loop invariant (bounded); (3) after the batch loop the outputs answer the drained calls one by one, by call id, in provider order, and the outer invariant plus the precondition of the follow-up builder show the very next request carries exactly those outputs; (4) in stateless mode the history a request is built from only ever grows. Holds for every provider behaviour (number/order/names of calls, errors) because the stubs are unconstrained. Partial: schema gate and collector JSON parsing are not under contract.",
+  note="Trusted: ~40 stub items (provider streaming, tool runner, collector, request builders) with the assumed facts `allows_function == permitted`, `drain_function_calls` returns one provider batch in provider order, `function_call_output_item` answers the given call id; assumed std contracts for Result::unwrap_or_else, Vec::extend, Option::as_deref; rules R3 (async dropped), R4, R9. Not decided: that a request failing schema validation is never sent (stream_openresponses_request), 'executed at most once' across retries inside ToolRunner, sort stability in drain_function_calls.",
+  technique="Verus loop invariants with effect-constraint preconditions and timeless facts on the mechanically extracted agent loop",
+  ref="§4 C16"),
  'C17': dict(
   text="Unbounded deductive proofs (Verus/Z3) on the real capture and accounting code extracted from /repo on every run. TaskLogWriter::append: the stored file grows by exactly the chunk prefix that fits under the cap, bytes_stored/bytes_total/truncated are updated accordingly and the log reference in the output frame (offset_bytes, bytes) describes consecutive, non-overlapping ranges - for every chunk, cap, prior state and every way the OS splits or interrupts writes. pump_output_stream: every byte read from the process is handed to the writer once, in order, unmodified, for every chunking of the pipe. capture_stream / write_artifact_tail / finalize_artifact (foreground shell): loop invariant over the bytes produced so far - the inline preview is a prefix of the output within its limit; the artifact file and its hasher hold exactly the output prefix up to the cap; the artifact is named hex(sha256(hashed bytes)), bytes == stored, truncated == total > stored. truncate_utf8 (both copies): used <= limits, text decodes exactly the used prefix, a page of well-formed text is cut on a character boundary and decoded strictly (paging reproduces the text), progress on non-empty pages. Partial: task lifecycle ordering is not under contract.",
   note="Trusted: stub contracts of the byte sinks/sources (File::write/write_all with ghost content, AsyncRead::read with ghost `produced`, Sha256, hex::encode), the UTF-8 model (valid/dec/lossy/incomplete with from_utf8/Utf8Error stubs), 64-bit usize, rules R1,R2,R3 (async/await dropped: sequential execution of one task; &mut exclusivity excludes interference),R6 (json! to struct literal),R8,R9; loops with an EINTR-retry arm are proved partially correct only (no decreases). Artifact-prefix clauses hold unless a write to the artifact file failed (then the file is marked poisoned). Not decided: spawn/running/terminal status ordering, cancellation timing, pty pump, read_artifact_range arithmetic.",
